@@ -5,21 +5,28 @@
      armor_stream parts  = the bytes written to w after NewArmorEncoder, one Write per
                            element of [parts], Close.
      armor_encode p      = the whole-input form (boilerplate ++ pre elements ++ trailer).
-   Decoder: golang.org/x/net/html's tokenizer (library) driven by decodeToWriter, the
-     io.Pipe, the version byte, base64.NewDecoder.  The tokenizer and decodeToWriter are
-     modelled together as ONE byte-at-a-time automaton [step]/[finish] (so that
-     [scan (a ++ b)] is [scan] of [b] continued from the state after [a]).
-     The automaton follows Tokenizer.Next / readTag / readComment / readRawOrRCDATA byte for
-     byte, including the SetMaxBuf accounting of readByte (raw length of the current token,
-     look-ahead included).  NOT modelled (outside the "simple grammar" on which the model is
-     claimed equal to the library): character references ('&') and NUL replacement inside
-     the text that reaches the decoder, the escape states of <script> (content containing
-     "<!--"), CDATA.  base64.NewDecoder + io.Pipe are modelled by their in-order meaning:
-     quanta are decoded in order, the first corrupt quantum wins, then the tokenizer's
-     terminal error, then an incomplete last quantum.  (The library's read-chunk dependent
-     leniency for data that FOLLOWS a padded quantum is not modelled: the model is strict.) *)
+   Decoder, in the layers of the Go code:
+     1. golang.org/x/net/html's Tokenizer with SetMaxBuf(32768) — LIBRARY, modelled at the
+        granularity decodeToWriter uses it: a byte-incremental automaton [tk_step]/[tk_fin] that
+        returns the tokens completed by each input byte ([tok]: text with the unescaping class of
+        Tokenizer.Text, start/end tag with lower-cased name, "other" = self-closing tag, comment,
+        doctype, and the two ErrorTokens io.EOF / ErrBufferExceeded).  It follows Next / readTag /
+        readComment / readMarkupDeclaration / readRawOrRCDATA / readScript byte for byte,
+        including the SetMaxBuf accounting of readByte (raw length of the current token,
+        look-ahead included) and the script escape states.  The token stream is a function of the
+        bytes fed so far, whatever the chunks the source delivers them in: that is the boundary
+        assumption (made explicit as the Section variables of Model/ArmorStream.v).
+     2. Tokenizer.Text: NUL replacement in raw text/RCDATA, character references
+        ([unescape], escape.go, with the full entity table of Model/HtmlEntities.v and the
+        int32 wrap-around of numeric references), convertNewlines.
+     3. decodeToWriter: pre nesting, bufio.Scanner with splitASCIIWhitespace ([words]; a word
+        of >= 65536 bytes is bufio.ErrTooLong), one pipe Write per word.
+     [step]/[run]/[finish] = layers 1-3 as one automaton over the document bytes;
+     [armor_decode] = the strict whole-document meaning (version byte, then base64 quanta in
+     order).  The io.Pipe, NewArmorDecoder and base64.NewDecoder's Read (with its chunking
+     dependent treatment of data after padding) are in Model/ArmorStream.v. *)
 From Coq Require Import List NArith Bool Arith String.
-From Snow Require Import Lib.Wire Model.Base64.
+From Snow Require Import Lib.Wire Model.Base64 Model.HtmlEntities.
 Import ListNotations.
 Open Scope N_scope.
 
@@ -130,12 +137,13 @@ Definition armor_encode (p : bytes) : bytes :=
   boilerplate_start ++ List.concat (map element (armor_elements p)) ++ boilerplate_end.
 
 (* ------------------------------------------------------------------ decoder *)
-Inductive derr := EUnknownVersion | EStray | ENested | EUnterminated | EOversize | EBadBase64 | EEmpty.
-(* how the token stream ended *)
+Inductive derr := EUnknownVersion | EStray | ENested | EUnterminated | EOversize | EBadBase64 | EEmpty | ETooLong.
+(* how decodeToWriter returned (what pw.CloseWithError gets) *)
 Inductive tend := TEnd | TErr (e : derr).
 
 Definition isws (c : N) : bool := (c =? 9) || (c =? 10) || (c =? 12) || (c =? 13) || (c =? 32).
 Definition is_letter (c : N) : bool := ((97 <=? c) && (c <=? 122)) || ((65 <=? c) && (c <=? 90)).
+Definition is_digit (c : N) : bool := (48 <=? c) && (c <=? 57).
 Definition lower1 (c : N) : N := if (65 <=? c) && (c <=? 90) then c + 32 else c.
 Definition lower (l : bytes) : bytes := map lower1 l.
 Definition LT : N := 60.
@@ -145,6 +153,164 @@ Definition BANG : N := 33.
 Definition QMARK : N := 63.
 Definition DASH : N := 45.
 Definition EQS : N := 61.
+Definition AMP : N := 38.
+Definition HASH : N := 35.
+Definition SEMIC : N := 59.
+
+(* ================================================================== layer 2: Tokenizer.Text *)
+Definition REPL : bytes := [239; 191; 189].   (* U+FFFD in UTF-8 *)
+
+(* bytes.Replace(s, nul, replacement, -1) *)
+Fixpoint nul_replace (l : bytes) : bytes :=
+  match l with
+  | [] => []
+  | c :: l' => if c =? 0 then REPL ++ nul_replace l' else c :: nul_replace l'
+  end.
+
+(* utf8.EncodeRune of a valid scalar value *)
+Definition utf8_encode (x : N) : bytes :=
+  if x <? 128 then [x]
+  else if x <? 2048 then [192 + x / 64; 128 + x mod 64]
+  else if x <? 65536 then [224 + x / 4096; 128 + (x / 64) mod 64; 128 + x mod 64]
+  else [240 + x / 262144; 128 + (x / 4096) mod 64; 128 + (x / 64) mod 64; 128 + x mod 64].
+
+(* escape.go replacementTable: numeric references 0x80..0x9F read as Windows-1252 *)
+Definition win1252 : list N :=
+  [8364; 129; 8218; 402; 8222; 8230; 8224; 8225; 710; 8240; 352; 8249; 338; 141; 381; 143;
+   144; 8216; 8217; 8220; 8221; 8226; 8211; 8212; 732; 8482; 353; 8250; 339; 157; 382; 376].
+
+(* [u] is the rune computed by unescapeEntity, an int32, given as its 32-bit pattern: a negative value
+   passes the range tests of unescapeEntity and is turned into U+FFFD by utf8.EncodeRune *)
+Definition fix_rune (u : N) : N :=
+  if 2147483648 <=? u then 65533
+  else if (128 <=? u) && (u <=? 159) then nth (N.to_nat (u - 128)) win1252 65533
+  else if (u =? 0) || ((55296 <=? u) && (u <=? 57343)) || (1114111 <? u) then 65533
+  else u.
+
+Definition digit_val (hex : bool) (c : N) : option N :=
+  if is_digit c then Some (c - 48)
+  else if hex then
+    (if (97 <=? c) && (c <=? 102) then Some (c - 87)
+     else if (65 <=? c) && (c <=? 70) then Some (c - 55) else None)
+  else None.
+
+(* the digit loop of unescapeEntity: value modulo 2^32 (int32 arithmetic wraps), number of digits, rest *)
+Fixpoint scan_digits (hex : bool) (l : bytes) (x : N) (k : nat) : N * nat * bytes :=
+  match l with
+  | c :: l' =>
+      match digit_val hex c with
+      | Some d => scan_digits hex l' (((if hex then 16 else 10) * x + d) mod 4294967296) (S k)
+      | None => (x, k, l)
+      end
+  | [] => (x, k, [])
+  end.
+
+Definition is_alnum (c : N) : bool := is_letter c || is_digit c.
+Fixpoint span_alnum (l : bytes) : bytes * bytes :=
+  match l with
+  | c :: l' => if is_alnum c then let '(a, r) := span_alnum l' in (c :: a, r) else ([], l)
+  | [] => ([], [])
+  end.
+
+Definition entity_tab : list (bytes * list N) := map (fun e => (bs (fst e), snd e)) entity_names.
+Definition entity_lookup (name : bytes) : option (list N) :=
+  match find (fun e => beq (fst e) name) entity_tab with
+  | Some e => Some (snd e)
+  | None => None
+  end.
+Definition runes_utf8 (cps : list N) : bytes := List.concat (map utf8_encode cps).
+
+(* "for j := maxLen; j > 1; j--": the longest prefix of 2..j bytes that is an entity without semicolon *)
+Fixpoint prefix_lookup (j : nat) (name : bytes) : option (bytes * nat) :=
+  match j with
+  | O | S O => None
+  | S j' => match entity_lookup (firstn j name) with
+            | Some cps => Some (runes_utf8 cps, j)
+            | None => prefix_lookup j' name
+            end
+  end.
+
+(* unescapeEntity(b, dst, src, attribute=false) at b[src] = '&'; [s1] = b[src+1:].
+   Result: the bytes written, and how many bytes of [s1] were consumed with the '&'. *)
+Definition entity_at (s1 : bytes) : bytes * nat :=
+  match s1 with
+  | [] => ([AMP], O)
+  | c1 :: r =>
+      if c1 =? HASH then
+        match r with
+        | [] | [_] => ([AMP], O)                       (* len(s) <= 3 *)
+        | c2 :: r2 =>
+            let hex := (c2 =? 120) || (c2 =? 88) in
+            let '(x, k, rest) := scan_digits hex (if hex then r2 else r) 0 O in
+            let semi := match rest with c :: _ => c =? SEMIC | [] => false end in
+            let i := (2 + (if hex then 1 else 0) + k + (if semi then 1 else 0))%nat in
+            if Nat.leb i 3 then ([AMP], O)              (* "no characters matched" *)
+            else (utf8_encode (fix_rune x), (i - 1)%nat)
+        end
+      else
+        let '(nm, rest) := span_alnum s1 in
+        let semi := match rest with c :: _ => c =? SEMIC | [] => false end in
+        let name := if semi then nm ++ [SEMIC] else nm in
+        match name with
+        | [] => ([AMP], O)
+        | _ =>
+            match entity_lookup name with
+            | Some cps => (runes_utf8 cps, List.length name)
+            | None =>
+                match prefix_lookup (Nat.min (List.length name - 1) longestEntityWithoutSemicolon) name with
+                | Some r => r
+                | None => ([AMP], O)    (* copied literally; the name has no '&' *)
+                end
+            end
+        end
+  end.
+
+(* unescape(b, false) *)
+Fixpoint unesc (skip : nat) (l : bytes) : bytes :=
+  match l with
+  | [] => []
+  | c :: l' =>
+      match skip with
+      | S k => unesc k l'
+      | O => if c =? AMP then let '(o, k) := entity_at l' in o ++ unesc k l' else c :: unesc O l'
+      end
+  end.
+Definition unescape (l : bytes) : bytes := unesc O l.
+
+(* convertNewlines: "\r" and "\r\n" become "\n" *)
+Fixpoint conv_nl (l : bytes) : bytes :=
+  match l with
+  | [] => []
+  | c :: l' =>
+      if c =? 13 then
+        10 :: match l' with
+              | c2 :: l'' => if c2 =? 10 then conv_nl l'' else conv_nl l'
+              | [] => []
+              end
+      else c :: conv_nl l'
+  end.
+
+(* which post-processing Tokenizer.Text applies: (convertNUL, textIsRaw) *)
+Inductive tkind :=
+| KText      (* main-loop text: character references *)
+| KRcdata    (* title, textarea: NUL replaced, then character references *)
+| KRaw.      (* other raw text elements, script, plaintext: NUL replaced *)
+
+Definition text_data (k : tkind) (d : bytes) : bytes :=
+  match k with
+  | KText => unescape (conv_nl d)
+  | KRcdata => unescape (nul_replace (conv_nl d))
+  | KRaw => nul_replace (conv_nl d)
+  end.
+
+(* ================================================================== layer 1: the tokenizer *)
+Inductive tok :=
+| TkText (k : tkind) (data : bytes)   (* TextToken: raw data and how Text() will post-process it *)
+| TkStart (name : bytes)              (* StartTagToken, TagName() *)
+| TkEnd (name : bytes)                (* EndTagToken *)
+| TkOther                             (* SelfClosingTagToken, CommentToken, DoctypeToken *)
+| TkEOF                               (* ErrorToken, Err() = io.EOF *)
+| TkOver.                             (* ErrorToken, Err() = ErrBufferExceeded *)
 
 (* readTag after the first letter of the name: states of readTagName / the attribute loop *)
 Inductive tgstate := TgName | TgSkip | TgKey | TgValStart | TgValEq | TgQuote (q : N) | TgUnq.
@@ -173,6 +339,15 @@ Definition tag_step (ts : tgstate) (c : N) : option tgstate :=
   | TgUnq => if isws c then Some TgSkip else if c =? GT then None else Some TgUnq
   end.
 
+(* readScript's labels *)
+Inductive sst :=
+| SData | SLt | SEscStart | SEscStartDash
+| SEsc | SEscDash | SEscDashDash | SEscLt
+| SDblStart (todo : bytes)              (* scriptDataDoubleEscapeStart: rest of "script", then the terminator *)
+| SDbl | SDblDash | SDblDashDash | SDblLt.
+(* from where readRawEndTag was called *)
+Inductive sctx := CData | CEsc | CDbl.
+
 Inductive mode :=
 | MTxt                              (* Next's main loop, reading text *)
 | MLt                               (* ... after '<' *)
@@ -186,155 +361,323 @@ Inductive mode :=
 | MRawLt (tag : bytes)              (* ... after '<' *)
 | MRawM (tag : bytes) (matched_rev : bytes) (todo : bytes)  (* readRawEndTag after "</" *)
 | MPlain                            (* rawTag = plaintext *)
-| MDead (e : derr).                 (* decodeToWriter has returned an error *)
+| MScr (st : sst)                   (* readScript *)
+| MScrM (cx : sctx) (matched_rev : bytes) (todo : bytes)    (* readRawEndTag called from readScript *)
+| MStop.                            (* z.err = ErrBufferExceeded: every further Next is an ErrorToken *)
 
-Record dst := { md : mode; cnt : N (* raw.end - raw.start *); active : bool; out_rev : bytes }.
-
-Definition dinit : dst := {| md := MTxt; cnt := 0; active := false; out_rev := [] |}.
-
-(* the bytes of an active text token reach the pipe with ASCII whitespace removed
-   (bufio.Scanner with splitASCIIWhitespace; word boundaries are not observable in the pipe) *)
-Definition emit1 (act : bool) (c : N) (o : bytes) : bytes :=
-  if act && negb (isws c) then c :: o else o.
-Fixpoint emit (act : bool) (l : bytes) (o : bytes) : bytes :=
-  match l with [] => o | c :: l' => emit act l' (emit1 act c o) end.
+(* tokenizer state: where Next is, raw.end - raw.start, and the data bytes of the text token being
+   read (reversed) *)
+Record tks := { tmd : mode; tcnt : N; tbuf : bytes }.
+Definition tk (m : mode) (n : N) (tb : bytes) : tks := {| tmd := m; tcnt := n; tbuf := tb |}.
+Definition tk_init : tks := tk MTxt 0 [].
 
 Definition raw_tags : list bytes :=
   map bs ["iframe"; "noembed"; "noframes"; "noscript"; "plaintext"; "script"; "style"; "textarea"; "title"; "xmp"]%string.
 Definition is_raw_tag (n : bytes) : bool := existsb (beq n) raw_tags.
 Definition PRE : bytes := bs "pre".
+Definition SCRIPT : bytes := bs "script".
+Definition is_rcdata (n : bytes) : bool := beq n (bs "textarea") || beq n (bs "title").
 
-Definition set_md (s : dst) (m : mode) (n : N) : dst :=
-  {| md := m; cnt := n; active := active s; out_rev := out_rev s |}.
-Definition dead (s : dst) (e : derr) (o : bytes) : dst :=
-  {| md := MDead e; cnt := 0; active := active s; out_rev := o |}.
-
-(* a complete tag token has been read *)
-Definition tag_done (s : dst) (isend : bool) (name_rev : bytes) (prev : N) : dst :=
-  let name := lower (List.rev name_rev) in
-  if isend then
-    if beq name PRE then
-      if active s then {| md := MTxt; cnt := 0; active := false; out_rev := out_rev s |}
-      else dead s EStray (out_rev s)
-    else set_md s MTxt 0
-  else
-    let next := if is_raw_tag name then (if beq name (bs "plaintext") then MPlain else MRaw name) else MTxt in
-    if (prev =? SLASH) then set_md s next 0       (* SelfClosingTagToken: ignored by the decoder *)
-    else if beq name PRE then
-      if active s then dead s ENested (out_rev s)
-      else {| md := next; cnt := 0; active := true; out_rev := out_rev s |}
-    else set_md s next 0.
-
-(* inside readTag; n = count including c *)
-Definition tag_on (s : dst) (n : N) (isend : bool) (ts : tgstate) (name_rev : bytes) (prev c : N) : dst :=
-  match tag_step ts c with
-  | None => tag_done s isend name_rev prev
-  | Some ts' =>
-      let nm := match ts, ts' with TgName, TgName => c :: name_rev | _, _ => name_rev end in
-      set_md s (MTag isend ts' nm c) n
-  end.
-
-(* text byte in the main loop (count already accounted for) *)
-Definition txt_on (s : dst) (n : N) (c : N) : dst :=
-  if c =? LT then set_md s MLt n
-  else {| md := MTxt; cnt := n; active := active s; out_rev := emit1 (active s) c (out_rev s) |}.
-
-Definition raw_on (s : dst) (tag : bytes) (n : N) (c : N) : dst :=
-  if c =? LT then set_md s (MRawLt tag) n
-  else {| md := MRaw tag; cnt := n; active := active s; out_rev := emit1 (active s) c (out_rev s) |}.
-
-Definition gt_on (s : dst) (n : N) (c : N) : dst :=
-  if c =? GT then set_md s MTxt 0 else set_md s MGt n.
-
-Definition with_out (s : dst) (o : bytes) : dst :=
-  {| md := md s; cnt := cnt s; active := active s; out_rev := o |}.
-
-(* the bytes of the current token that are pending as look-ahead (they become text if the
-   look-ahead fails, the input ends, or the buffer limit is hit) *)
+(* the bytes of the current token that were read as look-ahead (they are text if the look-ahead
+   fails, the input ends, or the buffer limit is hit) *)
 Definition pending (m : mode) : bytes :=
   match m with
   | MLt => [LT]
   | MEndOpen => [LT; SLASH]
   | MRawLt _ => [LT]
   | MRawM _ mr _ => LT :: SLASH :: List.rev mr
+  | MScr SLt | MScr SEscLt | MScr SDblLt => [LT]
+  | MScrM _ mr _ => LT :: SLASH :: List.rev mr
   | _ => []
   end.
 
 Definition is_text_mode (m : mode) : bool :=
   match m with
-  | MTxt | MLt | MRaw _ | MRawLt _ | MRawM _ _ _ | MPlain => true
-  | MEndOpen => true
+  | MTxt | MLt | MEndOpen | MRaw _ | MRawLt _ | MRawM _ _ _ | MPlain | MScr _ | MScrM _ _ _ => true
   | _ => false
   end.
+(* modes in which the token under construction is a comment or doctype *)
+Definition is_other_mode (m : mode) : bool :=
+  match m with MBang _ | MGt | MCom _ | MComBang => true | _ => false end.
 
-Definition step (s : dst) (c : N) : dst :=
-  match md s with
-  | MDead _ => s
-  | m =>
-    let n := cnt s + 1 in
+Definition kind_of (m : mode) : tkind :=
+  match m with
+  | MRaw t | MRawLt t | MRawM t _ _ => if is_rcdata t then KRcdata else KRaw
+  | MPlain | MScr _ | MScrM _ _ _ => KRaw
+  | _ => KText
+  end.
+
+(* a text token is only returned when it has data *)
+Definition flush (k : tkind) (tb : bytes) : list tok :=
+  match tb with [] => [] | _ => [TkText k (rev_append tb [])] end.
+(* append bytes (in order) to reversed data *)
+Definition push (l : bytes) (tb : bytes) : bytes := rev_append l tb.
+
+(* a complete tag token has been read *)
+Definition tk_tag_done (isend : bool) (name_rev : bytes) (prev : N) : tks * list tok :=
+  let name := lower (rev_append name_rev []) in
+  if isend then (tk MTxt 0 [], [TkEnd name])
+  else
+    let next := if is_raw_tag name
+                then (if beq name (bs "plaintext") then MPlain else if beq name SCRIPT then MScr SData else MRaw name)
+                else MTxt in
+    (tk next 0 [], [if prev =? SLASH then TkOther else TkStart name]).
+
+(* inside readTag; n = count including c *)
+Definition tk_tag_on (n : N) (isend : bool) (ts : tgstate) (name_rev : bytes) (prev c : N) : tks * list tok :=
+  match tag_step ts c with
+  | None => tk_tag_done isend name_rev prev
+  | Some ts' =>
+      let nm := match ts, ts' with TgName, TgName => c :: name_rev | _, _ => name_rev end in
+      (tk (MTag isend ts' nm c) n [], [])
+  end.
+
+(* one byte in the main loop's text state (count already accounted for) *)
+Definition txt_on (tb : bytes) (n : N) (c : N) : tks * list tok :=
+  if c =? LT then (tk MLt n tb, []) else (tk MTxt n (c :: tb), []).
+Definition raw_on (tag : bytes) (tb : bytes) (n : N) (c : N) : tks * list tok :=
+  if c =? LT then (tk (MRawLt tag) n tb, []) else (tk (MRaw tag) n (c :: tb), []).
+Definition gt_on (n : N) (c : N) : tks * list tok :=
+  if c =? GT then (tk MTxt 0 [], [TkOther]) else (tk MGt n [], []).
+
+(* readScript: re-reading c at the labels scriptData / scriptDataEscaped / scriptDataDoubleEscaped *)
+Definition sdata_on (tb : bytes) (n c : N) : tks * list tok :=
+  if c =? LT then (tk (MScr SLt) n tb, []) else (tk (MScr SData) n (c :: tb), []).
+Definition sesc_on (tb : bytes) (n c : N) : tks * list tok :=
+  if c =? DASH then (tk (MScr SEscDash) n (c :: tb), [])
+  else if c =? LT then (tk (MScr SEscLt) n tb, [])
+  else (tk (MScr SEsc) n (c :: tb), []).
+Definition sdbl_on (tb : bytes) (n c : N) : tks * list tok :=
+  if c =? DASH then (tk (MScr SDblDash) n (c :: tb), [])
+  else if c =? LT then (tk (MScr SDblLt) n tb, [])
+  else (tk (MScr SDbl) n (c :: tb), []).
+Definition is_tag_term (c : N) : bool := isws c || (c =? SLASH) || (c =? GT).
+(* the loop of scriptDataDoubleEscapeStart: [todo] = what is left of "script" *)
+Definition sdblstart_on (todo : bytes) (tb : bytes) (n c : N) : tks * list tok :=
+  match todo with
+  | p :: todo' => if (c =? p) || (c + 32 =? p) then (tk (MScr (SDblStart todo')) n (c :: tb), [])
+                  else sesc_on tb n c
+  | [] => if is_tag_term c then (tk (MScr SDbl) n (c :: tb), []) else sesc_on tb n c
+  end.
+
+Definition scr_on (st : sst) (tb : bytes) (n c : N) : tks * list tok :=
+  match st with
+  | SData => sdata_on tb n c
+  | SLt => if c =? SLASH then (tk (MScrM CData [] SCRIPT) n tb, [])
+           else if c =? BANG then (tk (MScr SEscStart) n (c :: LT :: tb), [])
+           else sdata_on (LT :: tb) n c
+  | SEscStart => if c =? DASH then (tk (MScr SEscStartDash) n (c :: tb), []) else sdata_on tb n c
+  | SEscStartDash => if c =? DASH then (tk (MScr SEscDashDash) n (c :: tb), []) else sdata_on tb n c
+  | SEsc => sesc_on tb n c
+  | SEscDash => if c =? DASH then (tk (MScr SEscDashDash) n (c :: tb), []) else sesc_on tb n c
+  | SEscDashDash => if c =? DASH then (tk (MScr SEscDashDash) n (c :: tb), [])
+                    else if c =? GT then (tk (MScr SData) n (c :: tb), [])
+                    else sesc_on tb n c
+  | SEscLt => if c =? SLASH then (tk (MScrM CEsc [] SCRIPT) n tb, [])
+              else if is_letter c then sdblstart_on SCRIPT (LT :: tb) n c
+              else sdata_on (LT :: tb) n c
+  | SDblStart todo => sdblstart_on todo tb n c
+  | SDbl => sdbl_on tb n c
+  | SDblDash => if c =? DASH then (tk (MScr SDblDashDash) n (c :: tb), []) else sdbl_on tb n c
+  | SDblDashDash => if c =? DASH then (tk (MScr SDblDashDash) n (c :: tb), [])
+                    else if c =? GT then (tk (MScr SData) n (c :: tb), [])
+                    else sdbl_on tb n c
+  | SDblLt => if c =? SLASH then (tk (MScrM CDbl [] SCRIPT) n tb, []) else sdbl_on (LT :: tb) n c
+  end.
+
+Definition scr_fail (cx : sctx) (tb : bytes) (n c : N) : tks * list tok :=
+  match cx with CData => sdata_on tb n c | CEsc => sesc_on tb n c | CDbl => sdbl_on tb n c end.
+
+Definition add_toks (pre : list tok) (r : tks * list tok) : tks * list tok := (fst r, pre ++ snd r).
+
+(* readByte + the code that consumes the byte: new state and the tokens Next returns because of it *)
+Definition tk_step (s : tks) (c : N) : tks * list tok :=
+  let m := tmd s in
+  let tb := tbuf s in
+  match m with
+  | MStop => (s, [])
+  | _ =>
+    let n := tcnt s + 1 in
     if MAXBUF <=? n then
       (* readByte sets ErrBufferExceeded: a text token keeps every byte read so far and is
-         handed to the decoder before the error; any other token is dropped *)
-      dead s EOversize (if is_text_mode m then emit (active s) (pending m ++ [c]) (out_rev s) else out_rev s)
+         returned before the ErrorToken; a comment/doctype is returned too; a tag is dropped *)
+      (tk MStop 0 [],
+       (if is_text_mode m then flush (kind_of m) (c :: push (pending m) tb)
+        else if is_other_mode m then [TkOther] else []) ++ [TkOver])
     else
     match m with
-    | MDead _ => s
-    | MTxt => txt_on s n c
+    | MStop => (s, [])
+    | MTxt => txt_on tb n c
     | MLt =>
-        if is_letter c then set_md s (MTag false TgName [c] c) 2
-        else if c =? SLASH then set_md s MEndOpen 2
-        else if c =? BANG then set_md s (MBang 0) 2
-        else if c =? QMARK then set_md s MGt 2
-        else txt_on (with_out s (emit1 (active s) LT (out_rev s))) n c
+        if is_letter c then (tk (MTag false TgName [c] c) 2 [], flush KText tb)
+        else if c =? SLASH then (tk MEndOpen 2 [], flush KText tb)
+        else if c =? BANG then (tk (MBang 0) 2 [], flush KText tb)
+        else if c =? QMARK then (tk MGt 2 [], flush KText tb)
+        else txt_on (LT :: tb) n c
     | MEndOpen =>
-        if c =? GT then set_md s MTxt 0
-        else if is_letter c then set_md s (MTag true TgName [c] c) n
-        else set_md s MGt n
+        if c =? GT then (tk MTxt 0 [], [TkOther])
+        else if is_letter c then (tk (MTag true TgName [c] c) n [], [])
+        else (tk MGt n [], [])
     | MBang k =>
-        if c =? DASH then (match k with O => set_md s (MBang 1) n | _ => set_md s (MCom 2) n end)
-        else gt_on s n c
-    | MGt => gt_on s n c
+        if c =? DASH then (match k with O => (tk (MBang 1) n [], []) | _ => (tk (MCom 2) n [], []) end)
+        else gt_on n c
+    | MGt => gt_on n c
     | MCom dc =>
-        if c =? DASH then set_md s (MCom (Nat.min 2 (S dc))) n
-        else if (c =? GT) && Nat.leb 2 dc then set_md s MTxt 0
-        else if (c =? BANG) && Nat.leb 2 dc then set_md s MComBang n
-        else set_md s (MCom 0) n
-    | MComBang => if c =? GT then set_md s MTxt 0 else set_md s (MCom 0) n
-    | MTag isend ts nm prev => tag_on s n isend ts nm prev c
-    | MRaw tag => raw_on s tag n c
+        if c =? DASH then (tk (MCom (Nat.min 2 (S dc))) n [], [])
+        else if (c =? GT) && Nat.leb 2 dc then (tk MTxt 0 [], [TkOther])
+        else if (c =? BANG) && Nat.leb 2 dc then (tk MComBang n [], [])
+        else (tk (MCom 0) n [], [])
+    | MComBang => if c =? GT then (tk MTxt 0 [], [TkOther]) else (tk (MCom 0) n [], [])
+    | MTag isend ts nm prev => tk_tag_on n isend ts nm prev c
+    | MRaw tag => raw_on tag tb n c
     | MRawLt tag =>
-        if c =? SLASH then set_md s (MRawM tag [] tag) n
-        else raw_on (with_out s (emit1 (active s) LT (out_rev s))) tag n c
+        if c =? SLASH then (tk (MRawM tag [] tag) n tb, [])
+        else raw_on tag (LT :: tb) n c
     | MRawM tag mr todo =>
         match todo with
         | p :: todo' =>
-            if (c =? p) || (c + 32 =? p) then set_md s (MRawM tag (c :: mr) todo') n
-            else raw_on (with_out s (emit (active s) (pending m) (out_rev s))) tag n c
+            if (c =? p) || (c + 32 =? p) then (tk (MRawM tag (c :: mr) todo') n tb, [])
+            else raw_on tag (push (pending m) tb) n c
         | [] =>
-            if isws c || (c =? SLASH) || (c =? GT)
+            if is_tag_term c
             then (* the raw text token ends before "</"; the end tag is then read by Next *)
-                 tag_on s (3 + N.of_nat (List.length mr)) true TgName mr (hd 0 mr) c
-            else raw_on (with_out s (emit (active s) (pending m) (out_rev s))) tag n c
+                 add_toks (flush (kind_of m) tb)
+                          (tk_tag_on (3 + N.of_nat (List.length mr)) true TgName mr (hd 0 mr) c)
+            else raw_on tag (push (pending m) tb) n c
         end
-    | MPlain => {| md := MPlain; cnt := n; active := active s; out_rev := emit1 (active s) c (out_rev s) |}
+    | MPlain => (tk MPlain n (c :: tb), [])
+    | MScr st => scr_on st tb n c
+    | MScrM cx mr todo =>
+        match todo with
+        | p :: todo' =>
+            if (c =? p) || (c + 32 =? p) then (tk (MScrM cx (c :: mr) todo') n tb, [])
+            else scr_fail cx (push (pending m) tb) n c
+        | [] =>
+            if is_tag_term c then
+              match cx with
+              | CDbl => (* "z.raw.end += len("</script>")", goto scriptDataEscaped *)
+                        (tk (MScr SEsc) n (c :: push (pending m) tb), [])
+              | _ => add_toks (flush KRaw tb)
+                              (tk_tag_on (3 + N.of_nat (List.length mr)) true TgName mr (hd 0 mr) c)
+              end
+            else scr_fail cx (push (pending m) tb) n c
+        end
     end
+  end.
+
+(* the source returned io.EOF: what the remaining calls of Next return *)
+Definition tk_fin (s : tks) : list tok :=
+  let m := tmd s in
+  match m with
+  | MStop => [TkOver]
+  | _ => (if is_text_mode m then flush (kind_of m) (push (pending m) (tbuf s))
+          else if is_other_mode m then [TkOther] else []) ++ [TkEOF]
+  end.
+
+(* the token stream of a document: a function of its bytes alone *)
+Fixpoint tk_run (s : tks) (l : bytes) : list tok :=
+  match l with
+  | [] => tk_fin s
+  | c :: l' => let '(s', ts) := tk_step s c in ts ++ tk_run s' l'
+  end.
+Definition tokens (doc : bytes) : list tok := tk_run tk_init doc.
+
+(* ================================================================== layer 3: decodeToWriter *)
+(* bufio.Scanner with splitASCIIWhitespace: the maximal runs of non-whitespace *)
+Fixpoint words_aux (l cur : bytes) : list bytes :=
+  match l with
+  | [] => match cur with [] => [] | _ => [rev_append cur []] end
+  | c :: l' =>
+      if isws c then match cur with [] => words_aux l' [] | _ => rev_append cur [] :: words_aux l' [] end
+      else words_aux l' (c :: cur)
+  end.
+Definition words (l : bytes) : list bytes := words_aux l [].
+
+(* bufio.MaxScanTokenSize: a word that fills the scanner's 64 KiB buffer is ErrTooLong; the words
+   before it have been written *)
+Definition TOOLONG : N := 65536.
+Fixpoint cut_long (ws : list bytes) : list bytes * bool :=
+  match ws with
+  | [] => ([], false)
+  | w :: r => if TOOLONG <=? N.of_nat (List.length w) then ([], true)
+              else let '(a, b) := cut_long r in (w :: a, b)
+  end.
+
+(* what decodeToWriter does with one token: the words it writes to the pipe and whether it returns *)
+Record dwr := { w_act : bool; w_words : list bytes; w_end : option tend }.
+Definition dw_tok (act : bool) (t : tok) : dwr :=
+  match t with
+  | TkText k d =>
+      if act then let '(ws, long) := cut_long (words (text_data k d)) in
+                  {| w_act := act; w_words := ws; w_end := if long then Some (TErr ETooLong) else None |}
+      else {| w_act := act; w_words := []; w_end := None |}
+  | TkStart nm =>
+      if beq nm PRE then
+        if act then {| w_act := act; w_words := []; w_end := Some (TErr ENested) |}
+        else {| w_act := true; w_words := []; w_end := None |}
+      else {| w_act := act; w_words := []; w_end := None |}
+  | TkEnd nm =>
+      if beq nm PRE then
+        if act then {| w_act := false; w_words := []; w_end := None |}
+        else {| w_act := act; w_words := []; w_end := Some (TErr EStray) |}
+      else {| w_act := act; w_words := []; w_end := None |}
+  | TkOther => {| w_act := act; w_words := []; w_end := None |}
+  | TkEOF => {| w_act := act; w_words := []; w_end := Some (if act then TErr EUnterminated else TEnd) |}
+  | TkOver => {| w_act := act; w_words := []; w_end := Some (TErr EOversize) |}
+  end.
+
+(* a run of tokens, until decodeToWriter returns *)
+Fixpoint dw_toks (act : bool) (ts : list tok) : dwr :=
+  match ts with
+  | [] => {| w_act := act; w_words := []; w_end := None |}
+  | t :: ts' =>
+      let r := dw_tok act t in
+      match w_end r with
+      | Some _ => r
+      | None => let r' := dw_toks (w_act r) ts' in
+                {| w_act := w_act r'; w_words := w_words r ++ w_words r'; w_end := w_end r' |}
+      end
+  end.
+
+(* ================================================================== layers 1-3 as one automaton *)
+(* [out_rev]: the words written to the pipe so far, last first; [halt]: decodeToWriter returned *)
+Record dst := { tkz : tks; active : bool; out_rev : list bytes; halt : option tend }.
+Definition md (s : dst) : mode := tmd (tkz s).
+Definition cnt (s : dst) : N := tcnt (tkz s).
+
+Definition dinit : dst := {| tkz := tk_init; active := false; out_rev := []; halt := None |}.
+
+Definition apply_toks (t : tks) (act : bool) (o : list bytes) (ts : list tok) : dst :=
+  let r := dw_toks act ts in
+  {| tkz := t; active := w_act r; out_rev := rev_append (w_words r) o; halt := w_end r |}.
+
+Definition step (s : dst) (c : N) : dst :=
+  match halt s with
+  | Some _ => s
+  | None => let '(t, ts) := tk_step (tkz s) c in apply_toks t (active s) (out_rev s) ts
   end.
 
 Definition run (s : dst) (l : bytes) : dst := fold_left step l s.
 
-(* end of input ([rev_append _ []] is [rev], linear time) *)
-Definition finish (s : dst) : bytes * tend :=
-  match md s with
-  | MDead e => (rev_append (out_rev s) [], TErr e)
-  | m => (rev_append (emit (active s) (pending m) (out_rev s)) [],
-          if active s then TErr EUnterminated else TEnd)
+(* end of input: the words in order, and how decodeToWriter returned *)
+Definition finish (s : dst) : list bytes * tend :=
+  match halt s with
+  | Some e => (rev_append (out_rev s) [], e)
+  | None =>
+      let s' := apply_toks (tkz s) (active s) (out_rev s) (tk_fin (tkz s)) in
+      (rev_append (out_rev s') [], match halt s' with Some e => e | None => TErr EOversize end)
   end.
 
-Definition armor_scan (doc : bytes) : bytes * tend := finish (run dinit doc).
+(* the pipe writes of a whole document *)
+Definition armor_words_of (doc : bytes) : list bytes * tend := finish (run dinit doc).
+(* ... as the byte stream the pipe's reader sees *)
+Definition armor_scan (doc : bytes) : bytes * tend :=
+  let '(ws, t) := armor_words_of doc in (List.concat ws, t).
 
 Inductive dres := DOk (d : bytes) | DErr (e : derr).
 
-(* NewArmorDecoder's version byte, then base64.NewDecoder over the pipe *)
+(* NewArmorDecoder's version byte, then base64 over the pipe, read to the end: the strict,
+   whole-stream meaning (a padded quantum must be the last one) *)
 Definition decode_result (r : bytes * tend) : dres :=
   match r with
   | ([], TEnd) => DErr EEmpty
